@@ -9,7 +9,8 @@ const char* RULE =
     "t in {0, tiny, O(1), 1e3, 1e6 scale} of either sign; A and B dense/sparse/structured; t1,t2). Oracle: every component of "
     "A.Evolve(H,t) vs fromM(U A U^dagger), U=diag(exp(i E_k t)) with E read off the model matrix of H in long double, tolerance "
     "(64|t| sum|h_kk| + 16) eps max|a|; t=0 is the identity component-wise; group law; scalar products preserved; PrepareEvolve + "
-    "Evolve(buffer) (exact-size heap buffer) vs the direct form and the model. Non-trivial: some level difference non-zero, t != 0 "
+    "Evolve(buffer) (exact-size heap buffer) vs the direct form and the model; evolution of unevaluated expressions (sum, scalar multiple, "
+    "negation, commutator, chained evolutions) and by operator expressions; operators mutated in place between evolutions with the same t. Non-trivial: some level difference non-zero, t != 0 "
     "and A has a non-zero off-diagonal component in a pair with non-zero frequency; distinct by digest of consumed bytes.";
 void harness_init() { quiet_gsl(); }
 
@@ -62,10 +63,11 @@ void run_case(ByteSource& s, CaseInfo& ci) {
   std::vector<double> h = gen_H(s, d, &hc);
   double t = gen_t(s, &tc);
   std::vector<double> a = gen_components(s, d, &pa, 30);
-  unsigned sub = s.choose(4);
+  unsigned sub = s.choose(7);
   ci.label("H-" + hc); ci.label(tc); ci.label("A-" + pa);
   ci.sample = fmt("d=%d H(%s)=%s t=%.17g A=%s sub=%u", d, hc.c_str(), vec_str(h).c_str(), t, vec_str(a).c_str(), sub);
-  SU_vector H = make_vec(h, d), A = make_vec(a, d);
+  VecHolder hH, hA; SU_vector& H = hH.make(h, d, s.tail_choose(8)); SU_vector& A = hA.make(a, d, s.tail_choose(8));  // storage kinds must not matter
+  ci.label(std::string("storage-H-") + hH.kind); ci.label(std::string("storage-A-") + hA.kind);
   Mat MH = toM(h, d), MA = toM(a, d);
   // level differences do not involve the identity component: read them off the traceless part
   std::vector<ld> E(d); { std::vector<double> h0 = h; h0[0] = 0; Mat M0 = toM(h0, d); for (int i = 0; i < d; i++) E[i] = M0.a[i][i].real(); }
@@ -148,6 +150,70 @@ void run_case(ByteSource& s, CaseInfo& ci) {
     ld tp = (64 * fabsl((ld)t) * hdiag + 64) * 4 * d * EPS * sqrtl(sa) * sqrtl(sb);
     CHECK(fabsl((ld)p0 - (ld)p1) <= tp + TINY * (1 + sqrtl(sa) + sqrtl(sb)), fmt("C03|Evolve|scalar-product-not-preserved|d=%d", d), "before %.17g after %.17g tol %.3Lg", p0, p1, tp);
     ci.label("scalar-product");
+  }
+  if (sub == 4 || sub == 5) {  // the evolved operand (and the operator) as unevaluated expressions, and chained evolutions
+    std::vector<double> b = gen_dense(s, d);
+    SU_vector B = make_vec(b, d);
+    double sc = s.num(4);
+    unsigned shape = s.choose(8);
+    static const char* SH[] = {"(A+B).Evolve(H,t)", "(s*A).Evolve(H,t)", "(-A).Evolve(H,t)", "iCommutator(A,B).Evolve(H,t)", "A.Evolve(H,t).Evolve(H,t2)", "A.Evolve(buf).Evolve(H,t2)",
+                               "A.Evolve(s*H,t)", "(A-B).Evolve(H+H,t)"};
+    ci.label(std::string("expr-") + SH[shape]);
+    std::string c2; double t2 = gen_t(s, &c2);
+    SU_vector X(d), Got(d); ld tt = (ld)t; std::vector<ld> Ee = E; ld hd = hdiag;
+    switch (shape) {
+      case 0: X = A + B; Got = (A + B).Evolve(H, t); break;
+      case 1: X = sc * A; Got = (sc * A).Evolve(H, t); break;
+      case 2: X = -A; Got = (-A).Evolve(H, t); break;
+      case 3: X = iCommutator(A, B); Got = iCommutator(A, B).Evolve(H, t); break;
+      case 4: X = R; Got = A.Evolve(H, t).Evolve(H, t2); tt = (ld)t2; break;
+      case 5: X = R2; Got = A.Evolve(buf).Evolve(H, t2); tt = (ld)t2; break;
+      case 6: { X = A; Got = A.Evolve(sc * H, t); SU_vector sH(sc * H); std::vector<double> h2 = comps(sH); h2[0] = 0; Mat M2 = toM(h2, d); hd = 0; for (int i = 0; i < d; i++) Ee[i] = M2.a[i][i].real(); for (int k = 1; k < d; k++) hd += fabsl((ld)h2[d * k + k]); break; }
+      default: { X = A - B; Got = (A - B).Evolve(H + H, t); SU_vector HH(H + H); std::vector<double> h2 = comps(HH); h2[0] = 0; Mat M2 = toM(h2, d); hd = 0; for (int i = 0; i < d; i++) Ee[i] = M2.a[i][i].real(); for (int k = 1; k < d; k++) hd += fabsl((ld)h2[d * k + k]); break; }
+    }
+    CHECK((int)Got.Dim() == d, "C03|Evolve-of-expression|dim", "%s d=%d got %u", SH[shape], d, Got.Dim());
+    std::vector<double> x = comps(X);
+    std::vector<ld> wx = fromM(conj_by_phases(toM(x, d), Ee, tt));
+    ld tx = (64 * fabsl(tt) * hd + 16) * EPS * max_abs(x);
+    for (int i = 0; i < d * d; i++) {
+      ld err = fabsl((ld)Got[i] - wx[i]);
+      CHECK(err <= tx + TINY, fmt("C03|Evolve-of-expression|not-conjugation|%s", SH[shape]), "d=%d slot %d lib=%.17g model=%.17Lg err=%.3Lg tol=%.3Lg :: %s", d, i, Got[i], wx[i], err, tx, ci.sample.c_str());
+    }
+    CHECK(comps(A) == a && comps(H) == h && comps(B) == b, "C03|Evolve-of-expression|operand-modified", "%s d=%d", SH[shape], d);
+  }
+  if (sub == 6) {  // the operator changes value in place between evolutions with the same t: nothing may be remembered from the earlier call
+    unsigned how = s.choose(4);
+    static const char* HOW[] = {"H*=s", "H[k]=x", "H=H2", "fresh-H-same-block"};
+    ci.label(std::string("operator-mutated-") + HOW[how]);
+    std::string hc2; std::vector<double> h2 = gen_H(s, d, &hc2);
+    std::vector<double> b = gen_dense(s, d);
+    SU_vector B = make_vec(b, d);
+    SU_vector Hm = make_vec(h, d);
+    SU_vector first(A.Evolve(Hm, t));
+    for (int i = 0; i < d * d; i++) CHECK(bit_equal(first[i], R[i]) || first[i] == R[i], "C03|Evolve|depends-on-operator-object", "slot %d", i);
+    std::unique_ptr<SU_vector> Hf;
+    const SU_vector* Hnow = &Hm;
+    switch (how) {
+      case 0: { double f = s.flag() ? 2.0 : s.num(3); Hm *= f; break; }
+      case 1: { int k = 1 + (int)s.choose(d - 1); Hm[d * k + k] = s.num(4); break; }
+      case 2: { SU_vector H2 = make_vec(h2, d); Hm = H2; break; }
+      default: { Hm = SU_vector(); Hf.reset(new SU_vector(make_vec(h2, d))); Hnow = Hf.get(); break; }  // the released block is handed to the new operator
+    }
+    std::vector<double> hn = comps(*Hnow);
+    std::vector<double> h0 = hn; h0[0] = 0; Mat M0 = toM(h0, d);
+    std::vector<ld> En(d); for (int i = 0; i < d; i++) En[i] = M0.a[i][i].real();
+    ld hdn = 0; for (int k = 1; k < d; k++) hdn += fabsl((ld)hn[d * k + k]);
+    SU_vector Got(B.Evolve(*Hnow, t));
+    std::vector<ld> wb = fromM(conj_by_phases(toM(b, d), En, (ld)t));
+    ld tb = (64 * fabsl((ld)t) * hdn + 16) * EPS * max_abs(b);
+    for (int i = 0; i < d * d; i++) {
+      ld err = fabsl((ld)Got[i] - wb[i]);
+      CHECK(err <= tb + TINY, fmt("C03|Evolve|stale-after-operator-change|%s", HOW[how]), "d=%d slot %d lib=%.17g model=%.17Lg err=%.3Lg tol=%.3Lg Hnew=%s :: %s", d, i, Got[i], wb[i], err, tb, vec_str(hn).c_str(), ci.sample.c_str());
+    }
+    // and the two-step form with the same (reused) buffer
+    Hnow->PrepareEvolve(buf, t);
+    SU_vector Got2(B.Evolve(buf));
+    for (int i = 0; i < d * d; i++) CHECK(fabsl((ld)Got2[i] - wb[i]) <= tb + TINY, fmt("C03|EvolveBuffer|stale-after-operator-change|%s", HOW[how]), "d=%d slot %d", d, i);
   }
 }
 void enumerate(const Emit&, const std::string&) {}
